@@ -60,6 +60,14 @@ fn load_rom(rom_file_name: String) -> Option<emulator::Core> {
     return None;
   }
 
+  // the ROM buffer maps the size the header declares: a shorter file would
+  // fault on the first access beyond its end
+  let file_length = rom_file.metadata().map(|m| m.len()).unwrap_or(0);
+  if file_length < header.get_rom_size_bytes() as u64 {
+    println!("ROM file is smaller than the size declared in its header");
+    return None;
+  }
+
   println!("Loading \"{}\"", header.get_title());
 
   Some(emulator::Core::from_rom_file(&mut rom_file, header))
